@@ -44,7 +44,7 @@ common.install(
     corpus_traits=c01.corpus_traits,
     template=objective_template,
     mix=(3, 10, 7),
-    budgets=(2000, 48000),
+    budgets=(2000, 24000),
     decl="free",
     level_text="Exploration: differential testing of optimize on programs with objectives; the cost vector of every answer set (per priority) is compared with the source under clingo.",
 )
